@@ -8,6 +8,7 @@ import torch
 
 from vf.common import Obs, sub_seed, WarnLog, HarnessBug
 from vf import optfam
+from vf import c04_extra as cx
 
 LEVEL = "exploration"
 TECHNIQUE = ("runtime reference-model monitor: autograd of the real functionals vs autograd of Newton steps unrolled in plain torch "
@@ -24,9 +25,16 @@ LEVEL_NOTE = ("Tolerance 100*(10*|f(y_returned)| + backward-solver tolerance) re
 RULE = ("seeded sampling over entry point x forward method x family x (n, batch) x backward option x placement x grad-leaf subset x y0 x "
         "y0.requires_grad; non-trivial = forward converged silently, first-order gradients were compared for >= 1 leaf with a non-zero "
         "reference gradient and (unless the case is first-order only) the second-order contraction was compared with a non-zero reference")
-RULE += ("; cotangent classes {random, 1e-10 x random with rescaling, loss quadratic in y}; spy on the solves started inside solve's own backward; a warning of a non-gmres backward solver is a violation; group big (40-64 unknowns, contraction 0.8/0.9, Krylov backward at 1e-10); group late (object holders rebound between two calls, one backward)")
+RULE += ("; cotangent classes {random, 1e-10 x random with rescaling, loss quadratic in y}; spy on the solves started inside solve's own backward; a warning of a non-gmres backward solver is a violation; group big (40-64 unknowns, contraction 0.8/0.9, Krylov backward at 1e-10); group late (object holders rebound between two calls, one backward)"
+         "; group hist (one nn.Module object solved, then a parameter / sub-module registered, removed, replaced by another Parameter object or "
+         "requires_grad toggled, solved again - up to 3 phases; reference on the module's current parameters, first and second order)"
+         "; group selfiter (the module's method reads its tensors through the module's registry)")
 MIN_NONTRIVIAL = {"quick": 800, "thorough": 6000}
 ASSUMPTIONS = [
+    "group selfiter: nn.Module method that also reads the module's tensors through self.parameters() / named_parameters() / "
+    "<submodule>.parameters() / get_parameter() (norm term lam*sum |p|^2, lam = 0.05), 2-7 unknowns, unbatched",
+    "group hist: nn.Module only (EditableModule.getparamnames is documented as a function of the method name; xitorch caches it per object), "
+    "2-8 unknowns x batch {(), (3,)}, contraction <= 0.6, the method reads its tensors by attribute access under their registered names",
     "group big: 40-64 unknowns, contraction constant 0.8 / 0.9 (Jacobian cond <= 19), newton forward, Krylov backward at rtol 1e-10 (needs well over 10 iterations)",
     "problem families of C03 (contraction constant <= 0.6, Jacobian cond <= 4); forward tolerances f_tol = x_tol = 1e-10 (gd/adam: x_rtol 1e-12/1e-9)",
     "a forward call that warned is not differentiated (the formula is stated at a converged point); a backward solve that warned is not compared",
@@ -36,11 +44,11 @@ ASSUMPTIONS = [
 ]
 BUDGET = {"quick": {"worker_timeout": 900, "case_timeout": 120}, "thorough": {"worker_timeout": 3300, "case_timeout": 300}}
 REQUIRED_COUNTERS = {
-    "quick": {"late_backward_compared": 40, "big_system_cases": 25, "cot_nl": 150, "cot_tiny": 80, "nested_backward_solves": 200, "first_order_compared": 800, "second_order_compared": 600, "backward_solves": 1500, "backward_default_krylov": 60,
+    "quick": {**cx.REQUIRED["quick"], **cx.SELFITER_REQUIRED["quick"], "late_backward_compared": 40, "big_system_cases": 25, "cot_nl": 150, "cot_tiny": 80, "nested_backward_solves": 200, "first_order_compared": 800, "second_order_compared": 600, "backward_solves": 1500, "backward_default_krylov": 60,
               "backward_default_dense": 60, "y0_nograd_checked": 150, "nontensor_param_cases": 100, "complex_cases": 100,
               "pair_compared": 60, "placement_module": 60, "placement_editable_derived": 60, "placement_explicit_nt": 60,
               "fwd_gd": 20, "fwd_adam": 20, "fwd_anderson_acc": 30, "fwd_newton": 60, "backward_gmres": 10, "backward_cg": 60},
-    "thorough": {"late_backward_compared": 240, "big_system_cases": 200, "cot_nl": 1500, "cot_tiny": 800, "nested_backward_solves": 2000, "first_order_compared": 5000, "second_order_compared": 4000, "backward_solves": 10000, "backward_default_krylov": 600,
+    "thorough": {**cx.REQUIRED["thorough"], **cx.SELFITER_REQUIRED["thorough"], "late_backward_compared": 240, "big_system_cases": 200, "cot_nl": 1500, "cot_tiny": 800, "nested_backward_solves": 2000, "first_order_compared": 5000, "second_order_compared": 4000, "backward_solves": 10000, "backward_default_krylov": 600,
                  "backward_default_dense": 600, "y0_nograd_checked": 1500, "nontensor_param_cases": 1000, "complex_cases": 1000,
                  "pair_compared": 600, "placement_module": 600, "placement_editable_derived": 600, "placement_explicit_nt": 600,
                  "fwd_gd": 200, "fwd_adam": 200, "fwd_anderson_acc": 300, "fwd_newton": 600, "backward_gmres": 100, "backward_cg": 600},
@@ -121,6 +129,10 @@ def cases(seed, tier):
     # tensors, a class that is both nn.Module and EditableModule) and a failing call followed by a normal one
     from vf import c09_extra as _c9x
     out.extend(_c9x.delegated_cases(seed, tier, ("rootfinder", "equilibrium", "minimize"), "c04d"))
+    # history on one nn.Module object whose SET of parameters changes between two solves (vf/c04_extra.py)
+    out.extend(cx.hist_cases(seed, tier))
+    # the module's method reads its tensors through self.parameters() / named_parameters() / get_parameter() (vf/c04_extra.py)
+    out.extend(cx.selfiter_cases(seed, tier))
     # observation only: complex non-holomorphic function (the statement's formula does not cover it; reported as a counter)
     NO = 12 if tier == "quick" else 60
     for i in range(NO):
@@ -207,6 +219,10 @@ def _forward(fn, pres, y0, method, bck, obs, tag):
 
 
 def run_case(desc):
+    if desc.get("group") == "hist":
+        return cx.run_hist(desc)
+    if desc.get("group") == "selfiter":
+        return cx.run_selfiter(desc)
     if desc.get("group") == "late":
         from vf import c09_extra
         return c09_extra.run_late(desc)
